@@ -1273,18 +1273,27 @@ class Flow:
     def _literal_rounds(self, s: ast.For, st: State) -> list[ast.expr] | None:
         """the elements of `for x in (f, g)`: a short literal tuple of names (functions, classes), directly or through a local that
         every path binds to the same literal; None when the loop is an ordinary one"""
-        if not isinstance(s.target, ast.Name) or s.orelse or not st.alts:
+        simple_t = isinstance(s.target, ast.Name)
+        tuple_t = isinstance(s.target, ast.Tuple) and all(isinstance(e, ast.Name) for e in s.target.elts)
+        if not (simple_t or tuple_t) or s.orelse or not st.alts:
             return None
-        its = {ast.dump(self._expand(s.iter, a)) for a in st.alts}
-        if len(its) != 1:
-            return None
-        it = self._expand(s.iter, st.alts[0])
+        # the literal is read as written (names inside it are substituted into the body, where they are expanded as usual)
+        it = s.iter
+        if isinstance(it, ast.Name):
+            its = {ast.dump(self._expand(s.iter, a)) for a in st.alts}
+            if len(its) != 1:
+                return None
+            it = self._expand(s.iter, st.alts[0])
         if not isinstance(it, (ast.Tuple, ast.List)) or not (2 <= len(it.elts) <= 4):
             return None
-        if not all(isinstance(e, (ast.Name, ast.Attribute)) for e in it.elts):
+        atom = lambda e: isinstance(e, (ast.Name, ast.Attribute))  # noqa: E731
+        if simple_t and not all(atom(e) for e in it.elts):
+            return None
+        if tuple_t and not all(isinstance(e, ast.Tuple) and len(e.elts) == len(s.target.elts) and all(atom(x) for x in e.elts) for e in it.elts):  # type: ignore[union-attr]
             return None
         stored, _ = stored_names(s.body)
-        if s.target.id in stored or any(isinstance(n, (ast.Lambda, ast.FunctionDef)) for b in s.body for n in ast.walk(b)):
+        tnames = {s.target.id} if simple_t else {e.id for e in s.target.elts}  # type: ignore[union-attr]
+        if tnames & set(stored) or any(isinstance(n, (ast.Lambda, ast.FunctionDef)) for b in s.body for n in ast.walk(b)):
             return None
         return list(it.elts)
 
@@ -1299,7 +1308,17 @@ class Flow:
             cur: State = st
             breaks: list[State] = []
             for e in rounds:
-                body_ = [ast.fix_missing_locations(norm._Subst(s.target.id, e).visit(copy.deepcopy(x))) for x in s.body]
+                pairs = [(s.target.id, e)] if isinstance(s.target, ast.Name) else [(t_.id, v_) for t_, v_ in zip(s.target.elts, e.elts)]  # type: ignore[union-attr]
+                body_ = []
+                for x in s.body:
+                    y = copy.deepcopy(x)
+                    # simultaneous substitution (the values may mention the other targets' names: `(a, b), (b, a)`)
+                    tmp = {nm: f"__round_{i}__" for i, (nm, _) in enumerate(pairs)}
+                    for nm, _ in pairs:
+                        y = norm._Subst(nm, ast.Name(tmp[nm], ast.Load())).visit(y)
+                    for nm, v_ in pairs:
+                        y = norm._Subst(tmp[nm], v_).visit(y)
+                    body_.append(ast.fix_missing_locations(y))
                 out_ = self._block(body_, cur.copy())
                 breaks += out_.breaks
                 cur = join([out_.fall, *out_.continues])
